@@ -9,4 +9,4 @@ OUTSIDE = _c02.OUTSIDE
 
 
 def shards(tier):
-    return _c02._wr("roundtrip") + [{"fn": "header", "consts": {"oracle": "roundtrip"}, "timeout": 300}]
+    return _c02._wr("roundtrip", tier) + [{"fn": "header", "consts": {"oracle": "roundtrip"}, "timeout": 300}]
